@@ -271,6 +271,11 @@ def judge_result_object(run, case, res, what):
     """self-consistency of an in-memory Result (the clauses of judge_archive that need no files)"""
     A = res.np_arrays
     e = np.asarray(A["error_array"], dtype=float)
+    bad_shape = [k for k, v in A.items() if k != "alignment_transformation_sim3" and np.asarray(v).ndim != 1]
+    if not run.check(not bad_shape, "value and companion arrays are one-dimensional (one entry per value)", case,
+                     "%s: arrays %s are not one-dimensional (shapes %s)" %
+                     (what, bad_shape, [np.asarray(A[k]).shape for k in bad_shape]), key="session:array-shape"):
+        return False
     n = len(e)
     if n:
         want = rm.stats_definition(e)
